@@ -29,6 +29,7 @@ EXTENDS H2TraceDecl, TLC
 CONSTANTS Sides,        \* subset of {"client", "server"}
           MaxSid,       \* highest stream id opened (1, 3, 5)
           MaxFrames,    \* bound on the number of wire frames of both directions together
+          MinFrames,    \* the connection does not end before this many frames are on the wire
           Names,        \* test names
           BodyPlans,    \* set of bodies (sequences of envelopes [fl, len])
           DataCuts,     \* sizes of DATA frames that do not take the whole rest of a body
@@ -387,6 +388,7 @@ ReadTimeout ==
 \* the connection ends: Close, or a Read / Write returning an error that is not a timeout
 End(kind) ==
   /\ ~ended
+  /\ NFrames >= MinFrames
   /\ AllowEarlyEnd \/ (Pending("req") = 0 /\ Pending("resp") = 0)
   /\ m' = CancelAll([m EXCEPT !.hist = Append(@, EndEv(kind))], EndErr(kind))
   /\ ended' = TRUE
@@ -444,7 +446,11 @@ EachNamedStreamOnce ==
               /\ \E s2 \in Sids(m.hist) : LET W == View(m.hist, s2, side) IN W.open /\ W.nm = V.nm /\ W.openAt > V.finAt
 
 \* open streams of the machine are exactly the opened, unfinished streams of the declarative view
-StreamsAgree == \A s \in SidSet : m.streams[s].on = (LET V == View(m.hist, s, side) IN V.open /\ ~V.fin)
+\* (named streams only: request trailers that race with the end of their call find no entry and
+\* create a new, nameless one - a HEADERS frame in direction req is taken for a new request - which
+\* can never produce a trace and is dropped at the end of the connection)
+StreamsAgree == \A s \in SidSet : (m.streams[s].on /\ m.streams[s].nm # "")
+                                     = (LET V == View(m.hist, s, side) IN V.open /\ ~V.fin /\ V.nm # "")
 
 \* nothing stays held back for ever (needs the fairness of the timer)
 HeldBackIsReleased == \A nm \in Names : (m.waiting[nm] # NoTrace) ~> (m.waiting[nm] = NoTrace \/ ended)
